@@ -117,6 +117,8 @@ def check_program_vm(prog, nworkers, bound, res=None, only=None):
         node = LS.build(prog)
     except Exception:
         return None
+    if not irtools.simplifies(node):
+        return None
     envs = T.valuations(LS.arguments(prog), nsets=1, exhaustive_int=False)
     env = envs[0] if envs else {}
     try:
